@@ -11,6 +11,8 @@
    Proofs/DeserializeTotalProofs.v (self-contained: independent of the C16 proof development). *)
 From Twig Require Import Base.Bytes Model.Lexer Model.BlockParser Model.BlockParserShape Model.Compiled
   Gen.TokenKinds Proofs.LexerProofs Proofs.DeserializeTotalProofs Proofs.BlockParserSkipProofs Proofs.RobustProofs.
+From Twig Require Import Base.Kernel Gen.KernelsSlice Gen.KernelsRange Proofs.KernelSliceSafe Proofs.KernelRangeModel Proofs.KernelRangeSafe.
+From Coq Require Import ZArith.
 From Coq Require Import NArith.
 
 (* the scanner (both tokenizers) returns tokens or an error for every byte string: length + 1 steps suffice *)
@@ -118,6 +120,35 @@ Example C05_example_reject :
   bp_parse_std [mkTok KBlockStart [] 1; mkTok KName b#"for" 1; mkTok KName b#"x" 1; mkTok KBlockEnd [] 1; mkTok KEof [] 1] = PErr.
 Proof. vm_compute. reflexivity. Qed.
 
+
+(* ---------------------------------------------------------------- integer arithmetic of slice and range *)
+(* The index computations of filterSlice and the count computation of functionRange, as the translator reads them
+   from the working tree (Gen/KernelsSlice.v, Gen/KernelsRange.v): for every int64 argument and every length a Go
+   value can have, no signed operation on the executed path leaves the int64 range, no divisor is zero, no uint64
+   to int conversion changes its value, and make / reflect.MakeSlice are never asked for a negative length (that
+   would panic). slice(1, 9223372036854775807) and range(0, 9223372036854775807) were such inputs on the pinned tree. *)
+Theorem C05_slice_arithmetic_safe : forall (start len : Z) (hasLength : bool) (n : Z),
+  in64 start = true -> in64 len = true -> (0 <= n < 2^63)%Z ->
+  k_slice_string_safe start len hasLength n = true /\ k_slice_list_safe start len hasLength n = true /\
+  k_slice_refl_string_safe start len hasLength n = true /\ k_slice_refl_slice_safe start len hasLength n = true.
+Proof.
+  intros start len hl n Hs Hl Hn. repeat split;
+    [apply k_slice_string_safe_all|apply k_slice_list_safe_all|apply k_slice_refl_string_safe_all|apply k_slice_refl_slice_safe_all]; assumption.
+Qed.
+
+Theorem C05_range_arithmetic_safe : forall start stop step : Z,
+  in64 start = true -> in64 stop = true -> in64 step = true -> k_range_count_safe start stop step = true.
+Proof. exact k_range_count_safe_all. Qed.
+
+(* range never builds more than krange_limit items, whatever the arguments *)
+Theorem C05_range_bounded : forall start stop step c : Z,
+  in64 start = true -> in64 stop = true -> in64 step = true ->
+  k_range_count start stop step = KRet b#"items" [KZ c] -> (1 <= c <= krange_limit)%Z.
+Proof. exact k_range_count_bounded. Qed.
+
+Theorem C05_kernels_translated : kernels_slice_ok = true /\ kernels_range_ok = true.
+Proof. split; reflexivity. Qed.
+
 Print Assumptions C05_lex_total.
 Print Assumptions C05_block_parser_index_safe.
 Print Assumptions C05_block_parser_fuel_bound.
@@ -126,3 +157,7 @@ Print Assumptions C05_eof_needed.
 Print Assumptions C05_string_slice_latent.
 Print Assumptions C05_model_tied_to_code.
 Print Assumptions C05_deserialize_total.
+Print Assumptions C05_slice_arithmetic_safe.
+Print Assumptions C05_range_arithmetic_safe.
+Print Assumptions C05_range_bounded.
+Print Assumptions C05_kernels_translated.
